@@ -1,4 +1,6 @@
 import Thanos.Lemmas.DownsampleAggr
+import Thanos.Lemmas.DownsampleAggrLoop
+import Thanos.Props.C36
 import Thanos.Generated.Facts
 /-
   C38 — Re-downsampling aggregates conserves totals.
@@ -62,6 +64,68 @@ theorem C38_batch_totals (r : Int) (hr : 0 < r) (buf : List Pt) (t0 v0 lastT lv 
   obtain ⟨out, nt, h1, h2, h3, _, h5, h6, h7, h8⟩ := downsampleBatch_totals r hr buf t0 v0 lastT lv hhead hlast hb hfin
   exact ⟨out, nt, h1, h2, h3, h5, h6, h7, h8⟩
 
+/-! ### the whole loop -/
+
+/-- what C38 asks of a re-downsampling of the chunks `inp` into the chunks `out` -/
+structure C38_holds (inp out : List Chunk) : Prop where
+  count : ((out.flatMap (·.count)).map (·.2)).sum = ((inp.flatMap (·.count)).map (·.2)).sum
+  sum : ((out.flatMap (·.sum)).map (·.2)).sum = ((inp.flatMap (·.sum)).map (·.2)).sum
+  min : ((out.flatMap (·.min)).map (·.2)).min? = ((inp.flatMap (·.min)).map (·.2)).min?
+  max : ((out.flatMap (·.max)).map (·.2)).max? = ((inp.flatMap (·.max)).map (·.2)).max?
+  aligned : ∀ c ∈ out, c.sum.map (·.1) = c.count.map (·.1) ∧ c.min.map (·.1) = c.count.map (·.1) ∧
+    c.max.map (·.1) = c.count.map (·.1) ∧ c.count ≠ []
+  ordered : ((out.flatMap (·.count)).map (·.1)).Pairwise (· < ·)
+  span : ∀ t ∈ (out.flatMap (·.count)).map (·.1), ∀ first last,
+    ((inp.flatMap (·.count)).map (·.1)).head? = some first → ((inp.flatMap (·.count)).map (·.1)).getLast? = some last →
+    first ≤ t ∧ t ≤ last
+
+private theorem holds_of_conserves {inp out : List Chunk} (hwf : WFChunks inp) (h : AggrConserves inp out) :
+    C38_holds inp out := by
+  refine ⟨h.count, h.sum, min?_eq_of_foldl_all _ _ h.min, max?_eq_of_foldl_all _ _ h.max, h.tsEq, h.tsSorted, ?_⟩
+  intro t ht first last hf hl
+  obtain ⟨lo, hlo, hi, hhi, hb⟩ := h.tsSpan t ht
+  have b1 := sorted_bounds _ first last hwf.sorted hf hl lo hlo
+  have b2 := sorted_bounds _ first last hwf.sorted hf hl hi hhi
+  omega
+
+/-- **C38 for downsampleAggrLoop as repaired** (`batchSize = max(len(chks)/numChunks, 1)`): for
+    well-formed aggregate chunks (the shape DownsampleRaw produces, `C36_wellformed`), every
+    resolution > 0 and every numChunks ≥ 1 the loop returns chunks whose total count, total sum,
+    overall minimum and overall maximum are those of the input, whose four aggregates share
+    their timestamps per chunk, and whose timestamps strictly increase inside the input's span. -/
+theorem C38_conserves (r : Int) (hr : 0 < r) (chks : List Chunk) (nc : Nat) (hnc : 0 < nc) (hwf : WFChunks chks) :
+    ∃ out, downsampleAggrLoop true chks r nc = .ok out ∧ C38_holds chks out := by
+  have hnc' : nc ≠ 0 := by omega
+  obtain ⟨out, ho, hc⟩ := aggrLoop_conserves r hr (aggrBatchSize true chks.length nc)
+    (by simp [aggrBatchSize]; omega) chks.length chks (Nat.le_refl _) hwf
+  exact ⟨out, by simp only [downsampleAggrLoop, hnc', if_false, ho], holds_of_conserves hwf hc⟩
+
+/-- the same for `batchSize = len(chks)/numChunks` (before the repair) as long as numChunks does
+    not exceed the number of chunks -/
+theorem C38_conserves_unclamped_partial (r : Int) (hr : 0 < r) (chks : List Chunk) (nc : Nat) (hnc : 0 < nc)
+    (hle : nc ≤ chks.length) (hwf : WFChunks chks) :
+    ∃ out, downsampleAggrLoop false chks r nc = .ok out ∧ C38_holds chks out := by
+  have hnc' : nc ≠ 0 := by omega
+  obtain ⟨out, ho, hc⟩ := aggrLoop_conserves r hr (aggrBatchSize false chks.length nc)
+    (by simp only [aggrBatchSize, Bool.false_eq_true, if_false]; exact Nat.div_pos hle hnc) chks.length chks (Nat.le_refl _) hwf
+  exact ⟨out, by simp only [downsampleAggrLoop, hnc', if_false, ho], holds_of_conserves hwf hc⟩
+
+/-- **C38 end to end**: raw series → DownsampleRaw (resolution r1, numChunks nc1) →
+    downsampleAggrLoop (resolution r2, numChunks nc2): the second level's total count is the
+    number of non-NaN raw samples and its total sum is their sum, for all series, resolutions
+    and chunk counts. -/
+theorem C38_from_raw (r1 r2 : Int) (h1 : 0 < r1) (h2 : 0 < r2) (data : List Raw) (nc1 nc2 : Nat)
+    (hn1 : 0 < nc1) (hn2 : 0 < nc2) (ok : RawOK data) :
+    ∃ l1 l2, downsampleRaw data r1 nc1 = some l1 ∧ downsampleAggrLoop true l1 r2 nc2 = .ok l2 ∧
+      C38_holds l1 l2 ∧
+      ((l2.flatMap (·.count)).map (·.2)).sum = ((dropNaN data).length : Int) ∧
+      ((l2.flatMap (·.sum)).map (·.2)).sum = ((dropNaN data).map (·.2)).sum := by
+  obtain ⟨l1, e1, hwf⟩ := C36_wellformed r1 h1 data nc1 hn1 ok
+  obtain ⟨l1', e1', t1, t2⟩ := C36_totals r1 h1 data nc1 hn1 ok
+  rw [e1] at e1'; cases e1'
+  obtain ⟨l2, e2, hh⟩ := C38_conserves r2 h2 l1 nc2 hn2 hwf
+  exact ⟨l1, l2, e1, e2, hh, hh.count.trans t1, hh.sum.trans t2⟩
+
 /-- Regenerated obligations: how the loop computes `batchSize` (the repaired expression, which
     is the one the driver's model uses: `aggrClampNow`) and what it tests. -/
 theorem C38_source_facts :
@@ -69,7 +133,14 @@ theorem C38_source_facts :
     Thanos.Facts.dsAggrLoopConds = ["chk.MinTime == math.MaxInt64 || chk.MaxTime == math.MinInt64", "err != nil"] := by
   decide
 
--- non-vacuity
+-- non-vacuity: the two level-1 chunks below are well-formed, so `C38_conserves` applies to them
+example : WFChunks
+    [{ mint := 49, maxt := 49, count := [(49, 2)], sum := [(49, 4)], min := [(49, 1)], max := [(49, 3)], counter := [(10, 1), (49, 3), (49, 3)] },
+     { mint := 70, maxt := 70, count := [(70, 1)], sum := [(70, 2)], min := [(70, 2)], max := [(70, 2)], counter := [(70, 2), (70, 2), (70, 2)] }] := by
+  refine ⟨?_, by decide, by decide⟩
+  intro c hc
+  simp only [List.mem_cons, List.not_mem_nil, or_false] at hc
+  rcases hc with rfl | rfl <;> exact ⟨by decide, by decide, by decide, by decide, by decide, by decide⟩
 example : downsampleAggrLoop false
     [{ mint := 49, maxt := 49, count := [(49, 2)], sum := [(49, 4)], min := [(49, 1)], max := [(49, 3)], counter := [(10, 1), (49, 3), (49, 3)] },
      { mint := 70, maxt := 70, count := [(70, 1)], sum := [(70, 2)], min := [(70, 2)], max := [(70, 2)], counter := [(70, 2), (70, 2), (70, 2)] }] 100 1
